@@ -29,6 +29,9 @@ type c05Scenario struct {
 	Pages [][]int `json:"pages"`
 	Kind  string  `json:"kind,omitempty"`
 	Var   *int    `json:"var,omitempty"`
+	// Stretch > 0: every page is inflated to up to Stretch values drawn around the symbols it
+	// holds (the kernels that compute bounds work on blocks of 8 to 64 values)
+	Stretch int `json:"stretch,omitempty"`
 }
 
 type c05Row[T any] struct {
@@ -111,7 +114,7 @@ func c05Write(kind string, variant int, pages [][]int) (data []byte, err error) 
 			rows := make([]c05Row[int32], len(p))
 			for i, s := range p {
 				if s >= 0 {
-					x := c05I32[v%len(c05I32)][s]
+					x := c05I32[v%len(c05I32)][s&3] ^ int32(s>>2)
 					rows[i].V = &x
 				}
 			}
@@ -124,7 +127,7 @@ func c05Write(kind string, variant int, pages [][]int) (data []byte, err error) 
 			rows := make([]c05Row[int64], len(p))
 			for i, s := range p {
 				if s >= 0 {
-					x := c05I64[v%len(c05I64)][s]
+					x := c05I64[v%len(c05I64)][s&3] ^ int64(s>>2)
 					rows[i].V = &x
 				}
 			}
@@ -137,7 +140,7 @@ func c05Write(kind string, variant int, pages [][]int) (data []byte, err error) 
 			rows := make([]c05Row[uint32], len(p))
 			for i, s := range p {
 				if s >= 0 {
-					x := c05U32[v%len(c05U32)][s]
+					x := c05U32[v%len(c05U32)][s&3] ^ uint32(s>>2)
 					rows[i].V = &x
 				}
 			}
@@ -150,7 +153,7 @@ func c05Write(kind string, variant int, pages [][]int) (data []byte, err error) 
 			rows := make([]c05Row[uint64], len(p))
 			for i, s := range p {
 				if s >= 0 {
-					x := c05U64[v%len(c05U64)][s]
+					x := c05U64[v%len(c05U64)][s&3] ^ uint64(s>>2)
 					rows[i].V = &x
 				}
 			}
@@ -163,7 +166,7 @@ func c05Write(kind string, variant int, pages [][]int) (data []byte, err error) 
 			rows := make([]c05Row[float32], len(p))
 			for i, s := range p {
 				if s >= 0 {
-					x := math.Float32frombits(c05F32[v%len(c05F32)][s])
+					x := math.Float32frombits(c05JitF32(c05F32[v%len(c05F32)][s&3], s>>2))
 					rows[i].V = &x
 				}
 			}
@@ -176,7 +179,7 @@ func c05Write(kind string, variant int, pages [][]int) (data []byte, err error) 
 			rows := make([]c05Row[float64], len(p))
 			for i, s := range p {
 				if s >= 0 {
-					x := math.Float64frombits(c05F64[v%len(c05F64)][s])
+					x := math.Float64frombits(c05JitF64(c05F64[v%len(c05F64)][s&3], s>>2))
 					rows[i].V = &x
 				}
 			}
@@ -190,7 +193,7 @@ func c05Write(kind string, variant int, pages [][]int) (data []byte, err error) 
 			row := c05ListRow{}
 			for _, s := range p {
 				if s >= 0 {
-					row.V = append(row.V, math.Float64frombits(c05F64[v%len(c05F64)][s]))
+					row.V = append(row.V, math.Float64frombits(c05JitF64(c05F64[v%len(c05F64)][s&3], s>>2)))
 				}
 			}
 			_, e := w.Write([]c05ListRow{row})
@@ -207,7 +210,11 @@ func c05Write(kind string, variant int, pages [][]int) (data []byte, err error) 
 			rows := make([]parquet.Row, len(p))
 			for i, s := range p {
 				if s >= 0 {
-					x := tab[v%len(tab)][s]
+					x := tab[v%len(tab)][s&3]
+					if j := s >> 2; j > 0 { // same high word, low words in no particular order
+						x[15] ^= byte(j)
+						x[9] ^= byte(j >> 2)
+					}
 					rows[i] = parquet.Row{parquet.FixedLenByteArrayValue(x[:]).Level(0, 1, 0)}
 				} else {
 					rows[i] = parquet.Row{parquet.NullValue().Level(0, 0, 0)}
@@ -223,7 +230,8 @@ func c05Write(kind string, variant int, pages [][]int) (data []byte, err error) 
 			rows := make([]c05Fixed5Row, len(p))
 			for i, s := range p {
 				if s >= 0 {
-					x := tab[v%len(tab)][s]
+					x := tab[v%len(tab)][s&3]
+					x[4] ^= byte(s >> 2)
 					rows[i].V = &x
 				}
 			}
@@ -236,7 +244,7 @@ func c05Write(kind string, variant int, pages [][]int) (data []byte, err error) 
 			rows := make([]c05Row[bool], len(p))
 			for i, s := range p {
 				if s >= 0 {
-					x := (s+v)%2 == 1
+					x := (s&3+v)%2 == 1
 					rows[i].V = &x
 				}
 			}
@@ -250,7 +258,7 @@ func c05Write(kind string, variant int, pages [][]int) (data []byte, err error) 
 			row := c05OptListRow{}
 			for _, s := range p {
 				if s >= 0 {
-					x := c05I64[v%len(c05I64)][s]
+					x := c05I64[v%len(c05I64)][s&3] ^ int64(s>>2)
 					row.V = append(row.V, &x)
 				} else {
 					row.V = append(row.V, nil)
@@ -265,7 +273,10 @@ func c05Write(kind string, variant int, pages [][]int) (data []byte, err error) 
 			rows := make([]c05Row[string], len(p))
 			for i, s := range p {
 				if s >= 0 {
-					x := c05Str[v%len(c05Str)][s]
+					x := c05Str[v%len(c05Str)][s&3]
+					if j := s >> 2; j > 0 {
+						x += string([]byte{byte(j)})
+					}
 					rows[i].V = &x
 				}
 			}
@@ -274,6 +285,44 @@ func c05Write(kind string, variant int, pages [][]int) (data []byte, err error) 
 		})
 	}
 	return buf.Bytes(), err
+}
+
+// jitter of a floating point bit pattern: the low mantissa bits, unless that would turn an infinity into a NaN
+func c05JitF64(b uint64, j int) uint64 {
+	if b&0x7FF0000000000000 == 0x7FF0000000000000 {
+		return b
+	}
+	return b ^ uint64(j)
+}
+func c05JitF32(b uint32, j int) uint32 {
+	if b&0x7F800000 == 0x7F800000 {
+		return b
+	}
+	return b ^ uint32(j)
+}
+
+// c05Inflate keeps what the layout says about each page (which symbols it holds, whether it is all
+// null) and adds up to n values around those symbols (symbol s with jitter j is s + 4j; the special
+// symbol is never jittered).
+func c05Inflate(pages [][]int, n int, r *rng) [][]int {
+	out := make([][]int, len(pages))
+	for pi, p := range pages {
+		q := append([]int{}, p...)
+		if len(p) > 0 {
+			for k := r.intn(n + 1); k > 0; k-- {
+				s := p[r.intn(len(p))]
+				if s > 0 {
+					s += 4 * r.intn(64)
+				}
+				at := r.intn(len(q) + 1)
+				q = append(q, 0)
+				copy(q[at+1:], q[at:])
+				q[at] = s
+			}
+		}
+		out[pi] = q
+	}
+	return out
 }
 
 func c05OrderKind(kind string) string {
@@ -347,6 +396,9 @@ func c05Main(args []string) error {
 				variant = *sc.Var
 			}
 			pages := sc.Pages
+			if sc.Stretch > 0 {
+				pages = c05Inflate(pages, sc.Stretch, r)
+			}
 			if kind == "doublelist" {
 				// a list row needs at least one symbol; all-null pages become empty lists
 			}
